@@ -12,34 +12,33 @@ LEVEL = "proof"
 
 
 def retained(g, pre, roots):
-    """closure of the roots over references, plus (recursively) the artifacts listed as referrers of retained manifests"""
-    R = set()
+    """(everything retained, the part of it retained in the role of a manifest): closure of the roots over
+    references, plus (recursively) the artifacts listed as referrers of manifests retained as manifests"""
+    R, RM = set(), set()
     work = list(roots)
     while work:
         d = work.pop()
-        if d in R:
+        if d in RM:
             continue
-        for x in g_closure(g, d, pre):
-            if x not in R:
-                R.add(x)
-                if pre["blob"].get(x) == 200:       # a subject whose own bytes are gone is not retained: its referrers follow the dangling policy
-                    for a in pre["refs"].get(x, []):
-                        work.append(a)
-    return R
+        RM.add(d)
+        R.add(d)
+        m = g["man"].get(d)
+        if pre["blob"].get(d) != 200:
+            continue            # its own bytes are gone: it references nothing and its referrers follow the dangling policy
+        for a in pre["refs"].get(d, []):
+            work.append(a)
+        if m:
+            for r in m["refs"]:
+                if m["kind"] == "index":
+                    work.append(r)          # children are manifests
+                else:
+                    R.add(r)                # config and layers are plain blobs, whatever else their bytes are
+    return R, RM
 
 
 def g_closure(g, d, pre, seen=None):
-    """d and what it references, descending only through manifests whose own bytes are still stored
-    (a manifest whose blob was deleted explicitly no longer references anything)"""
-    seen = set() if seen is None else seen
-    if d in seen:
-        return seen
-    seen.add(d)
-    m = g["man"].get(d)
-    if m and pre["blob"].get(d) == 200:
-        for r in m["refs"]:
-            g_closure(g, r, pre, seen)
-    return seen
+    R, _ = retained(dict(g), dict(pre, refs={}), [d])
+    return R
 
 
 def oracle(ctx, case, io):
@@ -78,13 +77,13 @@ def oracle(ctx, case, io):
             roots += [d for d in sorted(rstate[k][1]) if d in gg["man"] and pre["man"].get(d, (0,))[0] == 200 and not gg["man"][d].get("subject") and not orphan(d)]
         if not dflt(pol.get("untagged"), False):
             roots += [d for d in pre["man"] if pre["man"][d][0] == 200 and d in gg["man"] and not gg["man"][d].get("subject") and not orphan(d)]
-        R = retained(gg, pre, roots)
+        R, RM = retained(gg, pre, roots)
         for d in sorted(R):
-            if lost(d) or mlost(d):
+            if lost(d) or (d in RM and mlost(d)):
                 ctx.violation("collection removed %s, referenced (transitively) by a retained manifest (tagged, young, or untagged with untagged collection off) or a referrer of one" % d[:19],
                               hist(digest=d), "C05:retained-removed")
         for s_, lst in pre["refs"].items():
-            if s_ in R and pre["blob"].get(s_) == 200 and post["blob"].get(s_) == 200:
+            if s_ in RM and pre["blob"].get(s_) == 200 and post["blob"].get(s_) == 200:
                 gone = set(lst) - set(post["refs"].get(s_, []))
                 if gone:
                     ctx.violation("referrers %s of the retained subject %s are no longer listed" % (sorted(x[:19] for x in gone), s_[:19]), hist(subject=s_), "C05:referrers-dropped")
